@@ -1,5 +1,6 @@
 """C15 — same impls via either entry point, merged or split lists, any co-derived set."""
 from .. import run as R
+from .. import sx
 from ..check import Prop
 from ..gen import Gen, assemble, BOTH, STRUCT_ONLY
 from ..tokutil import owned_names, HELPER_NAMES
@@ -80,6 +81,29 @@ class C15(Prop):
                 its = (extra + items) if front else (items + extra)
                 add(assemble(plan, 'attr', items=its, extra_feats=['superset']), 'super',
                     skip=(len(extra) if front else 0), take=len(items), front=front)
+        # systematically: one comparison trait with one helper attribute it reads (key / ignore / bound), derived alone
+        # and next to every other comparison trait, before and after it
+        from ..cmpgen import AFFECTS
+        gid = 10 ** 6
+        T = sx.tid('T')
+        for t in cmp_pool:
+            for a in [a for a in ('ord', 'partial_ord', 'eq', 'partial_eq', 'hash') if t in AFFECTS[a]]:
+                for ak, cargs in (('key', sx.cargs(key='( $ , 1 )')), ('ignore', sx.cargs(ignore=True)),
+                                  ('bound', sx.cargs(bnd=[sx.b_pred(sx.wty(T, [sx.tb_trait(['P0'])]))]))):
+                    item = sx.struct('X', sx.unnamed([sx.field(T, attrs=[sx.a_cmp(a, sx.m_list(cargs))]),
+                                                      sx.field(sx.tid('u8'))]), gen=sx.generics([sx.gp_ty('T')]))
+                    for u in cmp_pool:
+                        if u == t:
+                            continue
+                        for front in (False, True):
+                            gid += 1
+                            plan = dict(item=item, items=[(t, None)], shared_bound=None, shared_dump=False, traits=[t],
+                                        enum=False, feats={'pair-cmp', '%s-%s' % (a, ak)})
+                            items = plan['items']
+                            add(assemble(plan, 'attr'), 'attr')
+                            its = ([(u, None)] + items) if front else (items + [(u, None)])
+                            add(assemble(plan, 'attr', items=its, extra_feats=['superset']), 'super',
+                                skip=(1 if front else 0), take=1, front=front)
         return out
 
     def view(self, r, parts):
